@@ -4,6 +4,7 @@ use crate::value::{DynObject, ObjectRepr, Tuple, Value, ValueKind, ValueRepr};
 
 const MIN_I128_AS_POS_U128: u128 = 170141183460469231731687303715884105728;
 pub(crate) const MAX_REPEATED_STRING_LEN: usize = 100_000_000;
+const MAX_REPEATED_SEQ_LEN: usize = 10_000_000;
 
 /// Iterator wrapper that provides exact size hints for iterators with known length.
 pub(crate) struct LenIterWrap<I: Send + Sync>(pub(crate) usize, pub(crate) I);
@@ -383,11 +384,24 @@ fn repeat_iterable(n: &Value, seq: &DynObject) -> Result<Value, Error> {
         )
     }));
 
+    // The repeated sequence is refused when it gets too large: the tuple is
+    // materialized right away and the lazy iterable reports `len * n` as its
+    // exact length.
+    let total = match len.checked_mul(n) {
+        Some(total) if total <= MAX_REPEATED_SEQ_LEN => total,
+        _ => {
+            return Err(Error::new(
+                ErrorKind::InvalidOperation,
+                "repeated sequence is too large",
+            ))
+        }
+    };
+
+    // repeating nothing is nothing; do not spin `n` times over it
+    let n = if len == 0 { 0 } else { n };
+
     if let Some(tuple) = seq.downcast_ref::<Tuple>() {
-        let capacity = ok!(len.checked_mul(n).ok_or_else(|| {
-            Error::new(ErrorKind::InvalidOperation, "repeated tuple is too large")
-        }));
-        let mut values = Vec::with_capacity(capacity);
+        let mut values = Vec::with_capacity(total);
         for _ in 0..n {
             values.extend(tuple.iter().cloned());
         }
@@ -401,7 +415,7 @@ fn repeat_iterable(n: &Value, seq: &DynObject) -> Result<Value, Error> {
     // improve on this here.
     Ok(Value::make_object_iterable(seq.clone(), move |seq| {
         Box::new(LenIterWrap(
-            len * n,
+            total,
             (0..n).flat_map(move |_| {
                 seq.try_iter().unwrap_or_else(|| {
                     Box::new(
